@@ -91,4 +91,354 @@ theorem lookupQuantile_out_of_range {B P : Nat} {tbl : Array Nat} {cs : List Nat
   unfold lookupQuantile
   rw [if_pos ⟨hPB, hq⟩]
 
+
+theorem dropLast_getElem_eq {ext : List Nat} {j : Nat} (hj : j < ext.dropLast.length) :
+    ext.dropLast[j] = ext.getD j 0 := by
+  have hj' : j < ext.length := by simp at hj; omega
+  rw [List.getElem_dropLast, getD_of_lt hj']
+
+/-- the loop of `From<&ContiguousCategoricalEntropyModel>` -/
+theorem fromContigLoop_inv {B P : Nat} {ext : List Nat} (h : ValidExt P ext) (hP : P ≤ B) :
+    ∀ (m i : Nat) (tbl : Array Nat), i + m + 2 = ext.length → LookupInv ext i tbl →
+      LookupInv ext (ext.length - 2) (Lookup.fromContigLoop B (ext.dropLast.drop (i + 1)) i tbl) := by
+  have hbins := h.bins_le
+  have hPB := pow_le_pow_of_le hP
+  intro m
+  induction m with
+  | zero =>
+    intro i tbl hi hinv
+    have : ext.dropLast.drop (i + 1) = [] := by
+      apply List.drop_eq_nil_of_le; simp; omega
+    rw [this]
+    simp only [Lookup.fromContigLoop]
+    have : ext.length - 2 = i := by omega
+    rw [this]; exact hinv
+  | succ m ih =>
+    intro i tbl hi hinv
+    have hlt : i + 1 < ext.dropLast.length := by simp; omega
+    rw [List.drop_eq_getElem_cons hlt]
+    simp only [Lookup.fromContigLoop]
+    rw [dropLast_getElem_eq hlt]
+    exact ih (i + 1) _ (by omega) (hinv.step (B := B) h (by omega) (by omega))
+
+/-- **`to_lookup_decoder_model`**: never panics on a constructed contiguous model, keeps the
+    cdf, and builds a correct lookup table -/
+theorem Lookup.fromContiguous_ok {B P : Nat} {m : Contiguous} (h : ValidCdf B P m.cdf) (hP : P ≤ B) :
+    ∃ tbl, Lookup.fromContiguous B P m = .ok { tbl := tbl, cdf := m.cdf } ∧
+      LookupOK P (unwrap P m.cdf) tbl := by
+  have h3 := h.three_le
+  have hl := h.length_eq
+  have hbins := h.2.bins_le
+  have hPB := pow_le_pow_of_le hP
+  unfold Lookup.fromContiguous csub
+  rw [if_pos (by omega)]
+  simp only
+  rw [if_neg (by omega), if_pos (by omega)]
+  simp only
+  refine ⟨_, rfl, ?_⟩
+  have hinner : (m.cdf.take (m.cdf.length - 1)).drop 1 = (unwrap P m.cdf).dropLast.drop (0 + 1) := by
+    rw [← List.dropLast_eq_take]
+    simp [unwrap]
+  rw [hinner]
+  have hinv := fromContigLoop_inv h.2 hP ((unwrap P m.cdf).length - 2) 0 #[] (by omega)
+    (LookupInv.zero h.2)
+  have hstep := hinv.step (B := B) h.2 (by omega) (by omega)
+  have e1 : (unwrap P m.cdf).length - 2 + 1 = (unwrap P m.cdf).length - 1 := by omega
+  rw [e1, h.2.2.2.1] at hstep
+  have e2 : m.cdf.length - 2 = (unwrap P m.cdf).length - 2 := by omega
+  rw [e2]
+  have := LookupInv.final h.2 (tbl := vecResize _ (2 ^ P) (narrow B ((unwrap P m.cdf).length - 2)))
+    (by rw [← e1]; exact (by
+          have := hinv.step (B := B) h.2 (by omega) (by omega)
+          rw [e1] at this
+          rw [h.2.2.2.1] at this
+          rw [e1]
+          exact this))
+  exact this
+
+
+/-! ### the loops that push one block per symbol -/
+
+/-- rows `i, i+1, …` of the canonical non-contiguous cdf -/
+def cdfRows {Sym : Type} (lab : Nat → Sym) (ext : List Nat) (i m : Nat) : List (Nat × Sym) :=
+  (List.range' i m).map (fun j => (ext.getD j 0, lab j))
+
+theorem cdfRows_succ {Sym : Type} (lab : Nat → Sym) (ext : List Nat) (i m : Nat) :
+    cdfRows lab ext i (m + 1) = (ext.getD i 0, lab i) :: cdfRows lab ext (i + 1) m := by
+  simp [cdfRows, List.range'_succ]
+
+theorem cdfRows_all {Sym : Type} (lab : Nat → Sym) (ext : List Nat) :
+    cdfRows lab ext 0 (ext.length - 1) = ext.dropLast.zip (labelsOf lab (ext.length - 1)) := by
+  apply List.ext_getElem?
+  intro i
+  by_cases hi : i < ext.length - 1
+  · have h1 : ext.dropLast[i]? = some (ext.getD i 0) := by
+      rw [List.getElem?_dropLast, if_pos hi, getElem?_of_lt (d := 0) (by omega)]
+    have h2 : (labelsOf lab (ext.length - 1))[i]? = some (lab i) := by
+      simp [labelsOf, hi]
+    rw [List.getElem?_zip_eq_some (z := (ext.getD i 0, lab i)) |>.mpr ⟨h1, h2⟩]
+    simp [cdfRows, hi]
+  · rw [List.getElem?_eq_none (by simp [cdfRows]; omega),
+      List.getElem?_eq_none (by simp [labelsOf]; omega)]
+
+theorem specTable_drop {Sym : Type} (lab : Nat → Sym) (ext : List Nat) {i : Nat}
+    (hi : i < ext.length - 1) :
+    (specTable lab ext).drop i =
+      (lab i, ext.getD i 0, ext.getD (i + 1) 0 - ext.getD i 0) :: (specTable lab ext).drop (i + 1) := by
+  have hlt : i < (specTable lab ext).length := by rw [specTable_length]; exact hi
+  rw [List.drop_eq_getElem_cons hlt]
+  congr 1
+  have := specTable_getElem? lab ext hi
+  rw [List.getElem?_eq_getElem hlt] at this
+  exact Option.some.inj this
+
+/-- `NonContiguousLookupDecoderModel::from_symbol_table` on the specification's table: the
+    `debug_assert_eq!` holds, every block is written where it belongs -/
+theorem fromTableLoop_inv {Sym : Type} {B P : Nat} {ext : List Nat} (h : ValidExt P ext)
+    (hP : P ≤ B) (lab : Nat → Sym) :
+    ∀ (m i : Nat) (cdf : List (Nat × Sym)) (tbl : Array Nat), i + m + 1 = ext.length →
+      cdf.length = i → LookupInv ext i tbl →
+      ∃ tbl', NcLookup.fromTableLoop B ((specTable lab ext).drop i) cdf tbl =
+          .ok (cdf ++ cdfRows lab ext i m, tbl') ∧ LookupInv ext (ext.length - 1) tbl' := by
+  have hbins := h.bins_le
+  have hPB := pow_le_pow_of_le hP
+  intro m
+  induction m with
+  | zero =>
+    intro i cdf tbl hi hc hinv
+    have : (specTable lab ext).drop i = [] := by
+      apply List.drop_eq_nil_of_le; rw [specTable_length]; omega
+    rw [this]
+    have e : ext.length - 1 = i := by omega
+    refine ⟨tbl, by simp [NcLookup.fromTableLoop, cdfRows], by rw [e]; exact hinv⟩
+  | succ m ih =>
+    intro i cdf tbl hi hc hinv
+    rw [specTable_drop lab ext (by omega)]
+    simp only [NcLookup.fromTableLoop]
+    obtain ⟨b1, b2, _⟩ := h.bin (s := i) (by omega)
+    have hsz : narrow B tbl.size = ext.getD i 0 := by
+      unfold narrow; rw [hinv.1]; exact Nat.mod_eq_of_lt (by omega)
+    rw [if_neg (by rw [hsz]; simp)]
+    have hnew : tbl.size + (ext.getD (i + 1) 0 - ext.getD i 0) = ext.getD (i + 1) 0 := by
+      rw [hinv.1]; omega
+    rw [hnew, hc, hsz]
+    obtain ⟨tbl', e1, e2⟩ := ih (i + 1) (cdf ++ [(ext.getD i 0, lab i)]) _ (by omega)
+      (by simp [hc]) (hinv.step (B := B) h (by omega) (by omega))
+    refine ⟨tbl', ?_, e2⟩
+    rw [e1, cdfRows_succ]
+    simp
+
+/-- the closure of `from_symbols_and_nonzero_fixed_point_probabilities` (non-contiguous) -/
+theorem foldOp_ncPushOp_inv {Sym : Type} {B P : Nat} {ext : List Nat} (h : ValidExt P ext)
+    (hP : P ≤ B) (lab : Nat → Sym) :
+    ∀ (m i : Nat) (cdf : List (Nat × Sym)) (tbl : Array Nat), i + m + 1 = ext.length →
+      cdf.length = i → LookupInv ext i tbl →
+      ∃ tbl', foldOp (NcLookup.pushOp B) (cdf, tbl) ((specTable lab ext).drop i) =
+          some (cdf ++ cdfRows lab ext i m, tbl') ∧ LookupInv ext (ext.length - 1) tbl' := by
+  have hbins := h.bins_le
+  have hPB := pow_le_pow_of_le hP
+  intro m
+  induction m with
+  | zero =>
+    intro i cdf tbl hi hc hinv
+    have : (specTable lab ext).drop i = [] := by
+      apply List.drop_eq_nil_of_le; rw [specTable_length]; omega
+    rw [this]
+    have e : ext.length - 1 = i := by omega
+    refine ⟨tbl, by simp [foldOp, cdfRows], by rw [e]; exact hinv⟩
+  | succ m ih =>
+    intro i cdf tbl hi hc hinv
+    rw [specTable_drop lab ext (by omega)]
+    simp only [foldOp, NcLookup.pushOp]
+    obtain ⟨b1, b2, _⟩ := h.bin (s := i) (by omega)
+    have hsz : narrow B tbl.size = ext.getD i 0 := by
+      unfold narrow; rw [hinv.1]; exact Nat.mod_eq_of_lt (by omega)
+    have hnew : tbl.size + (ext.getD (i + 1) 0 - ext.getD i 0) = ext.getD (i + 1) 0 := by
+      rw [hinv.1]; omega
+    rw [hnew, hc, hsz]
+    obtain ⟨tbl', e1, e2⟩ := ih (i + 1) (cdf ++ [(ext.getD i 0, lab i)]) _ (by omega)
+      (by simp [hc]) (hinv.step (B := B) h (by omega) (by omega))
+    refine ⟨tbl', ?_, e2⟩
+    rw [e1, cdfRows_succ]
+    simp
+
+/-- the closure of `from_nonzero_fixed_point_probabilities` (contiguous lookup) -/
+theorem foldOp_pushOp_inv {B P : Nat} {ext : List Nat} (h : ValidExt P ext)
+    (hP : P ≤ B) (lab : Nat → Unit) :
+    ∀ (m i : Nat) (cdf : List Nat) (tbl : Array Nat), i + m + 1 = ext.length →
+      cdf.length = i → LookupInv ext i tbl →
+      ∃ tbl', foldOp (Lookup.pushOp B) (cdf, tbl) ((specTable lab ext).drop i) =
+          some (cdf ++ (ext.dropLast.drop i), tbl') ∧ LookupInv ext (ext.length - 1) tbl' := by
+  have hbins := h.bins_le
+  have hPB := pow_le_pow_of_le hP
+  intro m
+  induction m with
+  | zero =>
+    intro i cdf tbl hi hc hinv
+    have : (specTable lab ext).drop i = [] := by
+      apply List.drop_eq_nil_of_le; rw [specTable_length]; omega
+    rw [this]
+    have : ext.dropLast.drop i = [] := by
+      apply List.drop_eq_nil_of_le; simp; omega
+    rw [this]
+    have e : ext.length - 1 = i := by omega
+    refine ⟨tbl, by simp [foldOp], by rw [e]; exact hinv⟩
+  | succ m ih =>
+    intro i cdf tbl hi hc hinv
+    rw [specTable_drop lab ext (by omega)]
+    simp only [foldOp, Lookup.pushOp]
+    obtain ⟨b1, b2, _⟩ := h.bin (s := i) (by omega)
+    have hsz : narrow B tbl.size = ext.getD i 0 := by
+      unfold narrow; rw [hinv.1]; exact Nat.mod_eq_of_lt (by omega)
+    have hnew : tbl.size + (ext.getD (i + 1) 0 - ext.getD i 0) = ext.getD (i + 1) 0 := by
+      rw [hinv.1]; omega
+    rw [hnew, hc, hsz]
+    obtain ⟨tbl', e1, e2⟩ := ih (i + 1) (cdf ++ [ext.getD i 0]) _ (by omega)
+      (by simp [hc]) (hinv.step (B := B) h (by omega) (by omega))
+    refine ⟨tbl', ?_, e2⟩
+    have hlt : i < ext.dropLast.length := by simp; omega
+    rw [e1, List.drop_eq_getElem_cons hlt, dropLast_getElem_eq hlt]
+    simp
+
+
+/-! ### constructors and conversions -/
+
+/-- **C19 for `ContiguousLookupDecoderModel::from_nonzero_fixed_point_probabilities`** -/
+theorem Lookup.fromNonzeroFixedPoint_some {B P : Nat} {probs : List Nat} {infer : Bool}
+    {m : Lookup} (hP1 : 1 ≤ P) (hP : P ≤ B) (hprobs : ∀ p ∈ probs, p < 2 ^ B)
+    (h : Lookup.fromNonzeroFixedPoint B P probs infer = some m) :
+    ∃ qs, ValidProbs P qs ∧ qs = (if infer then probs ++ [2 ^ P - probs.sum] else probs) ∧
+      m.cdf = wrapCdf B P (extOf qs) ∧ LookupOK P (extOf qs) m.tbl := by
+  unfold Lookup.fromNonzeroFixedPoint at h
+  cases hacc : accumulate B P (Lookup.pushOp B) (.rep ()) probs (([] : List Nat), (#[] : Array Nat))
+      infer with
+  | none => simp [hacc] at h
+  | some r =>
+    obtain ⟨rest, cdf, tbl⟩ := r
+    simp only [hacc, Option.some.injEq] at h
+    obtain ⟨qs, ss, hv, hqs, hts, hfold⟩ := accumulate_some hP1 hP hprobs hacc
+    have hlen := takeSyms_length hts
+    have hext := extOf_valid hv
+    rw [triples_eq_specTable hlen] at hfold
+    obtain ⟨tbl', e1, e2⟩ := foldOp_pushOp_inv hext hP (fun i => ss.getD i default)
+      ((extOf qs).length - 1) 0 [] #[] (by have := hext.1; omega) rfl (LookupInv.zero hext)
+    simp only [List.drop_zero, List.nil_append] at e1
+    rw [e1] at hfold
+    simp only [Option.some.injEq, Prod.mk.injEq] at hfold
+    refine ⟨qs, hv, hqs, ?_, ?_⟩
+    · rw [← h]; simp only [wrapCdf, ← hfold.1]
+    · rw [← h]; simp only [← hfold.2]; exact LookupInv.final hext e2
+
+theorem Lookup.dec_eq {B P : Nat} {m : Lookup} (h : ValidCdf B P m.cdf) (hP : P ≤ B)
+    (hok : LookupOK P (unwrap P m.cdf) m.tbl) {q : Nat} (hq : q < 2 ^ P) :
+    m.dec B P q = .ok (specDec (unwrap P m.cdf) q) := lookupQuantile_eq h hP hok hq
+
+theorem Lookup.table_eq {B P : Nat} {m : Lookup} (h : ValidCdf B P m.cdf) (hP : P ≤ B) :
+    m.table B = .ok (specTable id (unwrap P m.cdf)) :=
+  Contiguous.table_eq (m := { cdf := m.cdf }) h hP
+
+/-- **C19 for `NonContiguousLookupDecoderModel::from_symbols_and_nonzero_fixed_point_
+    probabilities`**: never panics; acceptance implies a valid table and matching counts -/
+theorem NcLookup.fromFixed_some {Sym : Type} [Inhabited Sym] {B P : Nat} {syms : List Sym}
+    {probs : List Nat} {infer : Bool} (hP1 : 1 ≤ P) (hP : P ≤ B) (hprobs : ∀ p ∈ probs, p < 2 ^ B) :
+    (NcLookup.fromSymbolsAndNonzeroFixedPoint B P syms probs infer = .ok none) ∨
+    ∃ m qs last, NcLookup.fromSymbolsAndNonzeroFixedPoint B P syms probs infer = .ok (some m) ∧
+      ValidProbs P qs ∧ qs = (if infer then probs ++ [2 ^ P - probs.sum] else probs) ∧
+      syms.length = qs.length ∧ m.cdf = ncCdf B P syms (extOf qs) last ∧
+      LookupOK P (extOf qs) m.tbl := by
+  unfold NcLookup.fromSymbolsAndNonzeroFixedPoint
+  cases hacc : accumulate B P (NcLookup.pushOp B) (.list syms) probs
+      (([] : List (Nat × Sym)), (#[] : Array Nat)) infer with
+  | none => left; rfl
+  | some r =>
+    obtain ⟨rest, cdf, tbl⟩ := r
+    simp only
+    obtain ⟨qs, ss, hv, hqs, hts, hfold⟩ := accumulate_some hP1 hP hprobs hacc
+    obtain ⟨rem, e1, e2, e3⟩ := takeSyms_list hts
+    have hext := extOf_valid hv
+    have hl3 := hext.1
+    rw [triples_eq_specTable e3] at hfold
+    obtain ⟨tbl', f1, f2⟩ := foldOp_ncPushOp_inv hext hP (fun i => ss.getD i default)
+      ((extOf qs).length - 1) 0 [] #[] (by omega) rfl (LookupInv.zero hext)
+    simp only [List.drop_zero, List.nil_append] at f1
+    rw [f1] at hfold
+    simp only [Option.some.injEq, Prod.mk.injEq] at hfold
+    obtain ⟨hc, ht⟩ := hfold
+    have hrows : cdf = (extOf qs).dropLast.zip ss := by
+      rw [← hc, cdfRows_all]
+      have : (extOf qs).length - 1 = ss.length := by rw [extOf_length]; omega
+      rw [this, labelsOf_getD_self]
+    have hcne : cdf ≠ [] := by
+      intro hn
+      have : ((extOf qs).dropLast.zip ss).length = 0 := by rw [← hrows, hn]; rfl
+      rw [List.length_zip, extOf_dropLast, psums_length, e3, Nat.min_self] at this
+      have := hv.1; omega
+    cases hl : cdf.getLast? with
+    | none => exact absurd (List.getLast?_eq_none_iff.mp hl) hcne
+    | some x =>
+      obtain ⟨c, last⟩ := x
+      simp only
+      subst e2
+      cases rem with
+      | cons x rem => left; simp [SymIter.next]
+      | nil =>
+        right
+        simp only [SymIter.next, List.append_nil] at e1 ⊢
+        subst e1
+        refine ⟨_, qs, last, rfl, hv, hqs, e3, ?_, ?_⟩
+        · simp only [ncCdf, hrows]
+        · simp only [← ht]; exact LookupInv.final hext f2
+
+/-- **`to_generic_lookup_decoder_model` / `to_lookup_decoder_model`** on the specification's
+    table: never panics (the `debug_assert` holds), canonical cdf, correct lookup table -/
+theorem NcLookup.fromTable_specTable {Sym : Type} {B P : Nat} (lab : Nat → Sym) {ext : List Nat}
+    (h : ValidExt P ext) (hP : P ≤ B) :
+    ∃ tbl last, NcLookup.fromTable B P (specTable lab ext) =
+      .ok { tbl := tbl, cdf := ncCdf B P (labelsOf lab (ext.length - 1)) ext last } ∧
+      LookupOK P ext tbl := by
+  have h3 := h.1
+  unfold NcLookup.fromTable
+  obtain ⟨tbl', f1, f2⟩ := fromTableLoop_inv h hP lab (ext.length - 1) 0 [] #[] (by omega) rfl
+    (LookupInv.zero h)
+  simp only [List.drop_zero, List.nil_append] at f1
+  rw [f1, cdfRows_all]
+  simp only
+  cases hl : (ext.dropLast.zip (labelsOf lab (ext.length - 1))).getLast? with
+  | none =>
+    exfalso
+    have := List.getLast?_eq_none_iff.mp hl
+    have : (ext.dropLast.zip (labelsOf lab (ext.length - 1))).length = 0 := by rw [this]; rfl
+    simp [labelsOf] at this
+    omega
+  | some x =>
+    obtain ⟨c, last⟩ := x
+    exact ⟨tbl', last, by simp only [ncCdf], LookupInv.final h f2⟩
+
+theorem NcLookup.dec_canon {Sym : Type} [DecidableEq Sym] [Inhabited Sym] {B P : Nat}
+    {labels : List Sym} {ext : List Nat} {last : Sym} {tbl : Array Nat}
+    (h : ValidExt P ext) (hlen : labels.length + 1 = ext.length) (hP : P ≤ B)
+    (hok : LookupOK P ext tbl) {q : Nat} (hq : q < 2 ^ P) :
+    NcLookup.dec B P { tbl := tbl, cdf := ncCdf B P labels ext last } q =
+      .ok ((labelledModel labels ext).dec q) := by
+  unfold NcLookup.dec
+  have hv := ncCdf_valid (B := B) (last := last) h hlen
+  have hu := ncCdf_unwrap (B := B) (last := last) h hlen
+  simp only
+  rw [lookupQuantile_eq hv hP (by rw [hu]; exact hok) hq, hu]
+  simp only [specDec]
+  have hin := specIdx_inBin h hq
+  have hi : specIdx ext q < labels.length := by have := hin.1; omega
+  have hlab := ncCdf_label (B := B) (P := P) (last := last) hlen hi
+  have hlt : specIdx ext q < (ncCdf B P labels ext last).length := by
+    simp [ncCdf]; omega
+  rw [getElem?_of_lt (d := default) hlt]
+  simp only [labelledModel, specDec, hlab]
+
+theorem NcLookup.table_canon {Sym : Type} [Inhabited Sym] {B P : Nat}
+    {labels : List Sym} {ext : List Nat} {last : Sym} {tbl : Array Nat}
+    (h : ValidExt P ext) (hlen : labels.length + 1 = ext.length) (hP : P ≤ B) :
+    NcLookup.table B { tbl := tbl, cdf := ncCdf B P labels ext last } =
+      .ok (specTable (fun i => labels.getD i default) ext) :=
+  NcDec.table_canon h hlen hP
+
 end CV.Cat
